@@ -62,7 +62,7 @@ fn protocol_campaign(shard: &Shard, prop: &'static str, props: u32, only_all_imp
 pub fn c12(shard: &Shard) -> i32 { protocol_campaign(shard, "C12", bit(12), false) }
 pub fn c13(shard: &Shard) -> i32 {
     // the width combinators never yield zero (grid, exhaustive)
-    if shard.idx == 0 && shard.replay.is_none() { width_combinators(); }
+    if shard.idx == 0 && shard.replay.is_none() && shard.only_case.is_none() { width_combinators(); }
     protocol_campaign(shard, "C13", bit(13), true)
 }
 
